@@ -67,6 +67,8 @@ def run(case: dict, ctx) -> dict:
     ref = w.ENTITY_REF.get(cls) if case["ref"] else None
     declares_entity = cls in w.ENTITY_CLASSES
     benign = cls == "none"
+    # a DOCTYPE that declares no entity (and names no external subset) is an ordinary document
+    harmless_dtd = cls in ("doctype-only", "doctype-empty-subset", "dtd-elements-only") and not ref
     returned_text = ""
     if ep == "ovf":
         from dissect.hypervisor.descriptor.ovf import OVF
@@ -138,6 +140,13 @@ def run(case: dict, ctx) -> dict:
             res["viol"].append({"what": f"a document without DOCTYPE was refused: {o.brief()}", "mech": MECH, "detail": {"entry_point": ep, "tb": o.tb}})
         elif want is not None and o.value != want:
             res["viol"].append({"what": "benign document: disk list differs from the model", "mech": MECH, "detail": {"got": o.value, "exp": want}})
+    elif harmless_dtd and case["enc"] == "utf-8":
+        cnt["harmless_doctype_documents"] = 1
+        if not o.ok:
+            res["viol"].append({"what": f"a document whose DOCTYPE declares no entities was refused: {o.brief()}", "mech": MECH,
+                                "detail": {"entry_point": ep, "class": cls, "tb": o.tb}})
+        elif want is not None and o.value != want:
+            res["viol"].append({"what": "document with a harmless DOCTYPE: disk list differs from the model", "mech": MECH, "detail": {"got": o.value, "exp": want}})
     else:
         cnt["dtd_only_documents"] = 1
         cnt["dtd_only_accepted"] = int(o.ok)
